@@ -552,7 +552,7 @@ class SyncInterpreter(BaseInterpreter[TContext, TEvent]):
             # ⏱️ Re-arm cancelled timers/services — see the matching comment
             #    in `BaseInterpreter._execute_transition`. Without this the
             #    restored configuration is inert.
-            for node in snapshot_before_transition:
+            for node in sorted(snapshot_before_transition, key=lambda s: (s.depth, s.id)):
                 if node in states_to_exit:
                     self._schedule_state_tasks(node)
             raise
